@@ -17,6 +17,8 @@ Decided structurally:
   C05.pad       a late-appearing column is padded to the current row count before its first cell; EndRow pads every column
                 (loop over all columns, no early exit) after incrementing the row count
   C05.var       VarClear / VarCopy are total over VAR_TYPE; VarCopy clears the destination and deep-copies strings
+  C05.gate      every engine write of the selected-output print switch pr.punch is followed by the matching
+                phrq_io->Set_punch_on(..) (string/file gate), so table, string and file are switched together
   C05.once      tidy_punch (which writes the headings of every flagged block) is never called from inside a loop over the blocks
   C05.lines     GetSelectedOutputStringLine is range-guarded on the same vector it subscripts (shared with C09.lines)
 Not decided: (c) the text cell equals the table value rendered in the block's format (format strings vs values); row-count
@@ -50,6 +52,11 @@ def run(P, R, tier):
     var_rules(P, R)
     lines_rule(P, R, "C05.lines", only=("GetSelectedOutputStringLine",))
     once_rule(P, R)
+    # the engine-side selected-output switch pr.punch and the sink gate punch_on move together (shared with C07.mirror):
+    # a write of pr.punch that is not followed by Set_punch_on lets the table fill while string and file stay empty (or v.v.)
+    from . import c07 as C07
+    wt = C07.load_table("c07_wrapper_exempt.json")
+    C07.mirror_rule(P, R, "C05.gate", wt, P.one("IPhreeqc::UnLoadDatabase"), only=("pr.punch",), minimum=3)
 
 
 # ------------------------------------------------------------------------------------------ headings once
@@ -151,6 +158,7 @@ def trisink_rules(P, R):
     for f in fam(P, "IPhreeqc::fpunchf"):
         vt = f["params"][-1]
         pn = f["pnames"]
+        set_aliases(f)
         inst0 = "IPhreeqc::fpunchf(%s)" % vt
         where = dict(file=f["file"], line=f["line"], function=f["q"])
         body = f["body"]
@@ -228,6 +236,7 @@ def trisink_rules(P, R):
             R.violation("C05.trisink", inst0 + ":order", "sinks are served in order %s (expected file, string, table; an exception between them leaves the views unequal)" % order, **where)
     # punch_msg: raw text (headings, end of line) to string and file
     f = P.one("IPhreeqc::punch_msg")
+    set_aliases(f)
     ok = False
     for s in f["body"][2]:
         if T.is_node(s) and s[0] == "If":
@@ -254,10 +263,34 @@ def trisink_rules(P, R):
         R.violation("C05.trisink", "fpunchf_end_row", "the end-of-row event no longer reaches CSelectedOutput::EndRow", file=e["file"], line=e["line"], function=e["q"])
 
 
+_ALIASES = {}
+
+
+def set_aliases(f):
+    """locals that are plain copies of a parameter (`const char *s = str;`, never re-assigned) denote that parameter"""
+    global _ALIASES
+    al = {}
+    written = set()
+    for t, how, l, n in T.writes(f["body"]):
+        root, steps = T.access_path(t)
+        if root[0] == "local" and not steps:
+            written.add(root[1])
+    for x in T.walk(f["body"]):
+        if x[0] == "Decl":
+            for d in x[2]:
+                i = T.strip_casts(d[2]) if T.is_node(d[2]) else None
+                if T.is_node(i) and i[0] == "Ref" and i[2] == "param" and d[0] not in written:
+                    al[d[0]] = i[3]
+    _ALIASES = al
+    return al
+
+
 def param_name(a):
     a = T.strip_casts(a)
     if T.is_node(a) and a[0] == "Ref" and a[2] == "param":
         return a[3]
+    if T.is_node(a) and a[0] == "Ref" and a[2] == "local" and a[3] in _ALIASES:
+        return _ALIASES[a[3]]
     return None
 
 
@@ -352,13 +385,28 @@ def get_rules(P, R):
     else:
         R.violation("C05.get", "Get:clear-first", "Get does not begin by clearing the caller's VAR (VarClear) and returning VR_BADVARTYPE on failure", **where)
 
+    # locals holding a count: `size_t nrows = this->GetRowCount();`
+    count_locals = {}
+    for x in T.walk(f["body"]):
+        if x[0] == "Decl":
+            for d in x[2]:
+                if T.is_node(d[2]):
+                    for cc in T.calls(d[2]):
+                        if T.callee_name(cc) in ("GetRowCount", "GetColCount"):
+                            count_locals[d[0]] = T.callee_name(cc)
+
+    def measures(n, count_fn):
+        if any(T.callee_name(cc) == count_fn for cc in T.calls(n)):
+            return True
+        return any(y[0] == "Ref" and y[2] == "local" and count_locals.get(y[3]) == count_fn for y in T.walk(n))
+
     def guard_index(param, count_fn, code):
         for i, s in enumerate(st):
             if s[0] != "If":
                 continue
             c = T.strip_casts(s[2])
             parts = flatten_or(c)
-            has_hi = any(p[0] == "Bin" and p[2] == ">=" and param_name(p[3]) == param and any(T.callee_name(cc) == count_fn for cc in T.calls(p[4])) for p in parts)
+            has_hi = any(p[0] == "Bin" and p[2] == ">=" and param_name(p[3]) == param and measures(p[4], count_fn) for p in parts)
             has_lo = any(p[0] == "Bin" and p[2] == "<" and param_name(p[3]) == param and T.lit_value(p[4]) == 0 for p in parts)
             if has_hi or has_lo:
                 sets_type = any(is_field(t, "type") and how == "=" and enum_name(n[4]) == "TT_ERROR" for t, how, l, n in T.writes(s[3]))
